@@ -25,7 +25,7 @@ for pid in sorted(PROPS):
     })
 m = {
     "version": 1,
-    "setup_cmd": "cd /verif/harness && CARGO_NET_OFFLINE=true cargo build --offline --quiet && CARGO_NET_OFFLINE=true cargo build --offline --quiet --no-default-features --target-dir target-nopar && cd /verif/lean && lake build ShredModel driver",
+    "setup_cmd": "cd /verif/harness && CARGO_NET_OFFLINE=true cargo build --offline --quiet && CARGO_NET_OFFLINE=true cargo build --offline --quiet --no-default-features --target-dir target-nopar && CARGO_NET_OFFLINE=true cargo build --offline --quiet --profile nodebug --target-dir target-nodebug && cd /verif/lean && lake build ShredModel driver",
     "hooks": {
         "guard": "verif-hooks (cargo feature of shred)",
         "enable": "the harness depends on shred by path with features = [\"verif-hooks\"]; cargo build --features verif-hooks",
